@@ -207,6 +207,7 @@ class Ctx:
         return res
 
     def drv_ok(self, family, args=(), **kw):
+        race = kw.get("race", False)
         res = self.drv(family, args, **kw)
         res["partial"] = False
         if res["rc"] == 4 and os.path.exists(res["trace"]) and os.path.getsize(res["trace"]) > 0:
@@ -229,6 +230,26 @@ class Ctx:
                            files={"trace.ndjson": res["trace"], "drv.out": os.path.join(res["dir"], "drv.out")})
             res["crashed"] = True
             return res
+        if race and "WARNING: DATA RACE" in res["stderr"]:
+            # reports of the race detector on a replayed schedule; reports whose accesses are all in the
+            # harness's own code are a harness bug, not a verdict
+            blocks = res["stderr"].split("WARNING: DATA RACE")[1:]
+            real = []
+            for b in blocks:
+                tops = re.findall(r"(?:Read|Write|Previous read|Previous write) at [^\n]*\n\s+([^\n]+)", b)
+                if tops and all("gca-backend/" in t and "verifharness" not in t for t in tops):
+                    real.append(b[:3000])
+            if real:
+                rp = os.path.join(res["dir"], "race.txt")
+                open(rp, "w").write("\n=====\n".join(real))
+                self.violation("the race detector reports %d data race(s) in gca-backend on a replayed schedule: %s"
+                               % (len(real), " / ".join(re.findall(r"gca-backend/[^\n(]+", real[0])[:2])),
+                               files={"race.txt": rp, "trace.ndjson": res["trace"]})
+                res["raced"] = True
+            elif res["rc"] == 66:
+                raise Broken("the race detector reports races in the harness itself:\n" + blocks[0][:2000])
+            if res["rc"] == 66:
+                res["rc"] = 0
         if res["rc"] != 0:
             raise Broken("driver %s exited %d:\n%s" % (family, res["rc"], res["stderr"][-3000:]))
         s = res["summary"]
